@@ -122,8 +122,16 @@ func genOps(rng *hlib.Rand, tf *testFile, invalid bool) []op {
 	pts := interesting(tf)
 	n := 3 + rng.Intn(22)
 	var ops []op
-	pos := int64(0) // our idea of the position, to aim relative seeks
+	pos, lim := int64(0), tf.size // where the reader will be, to aim relative seeks
 	closed := false
+	didRead := func(n int64) {
+		if pos < lim {
+			if n > lim-pos {
+				n = lim - pos
+			}
+			pos += n
+		}
+	}
 	if rng.Chance(1, 30) { // Close before anything else
 		ops = append(ops, op{kind: "close"})
 		closed = true
@@ -134,7 +142,7 @@ func genOps(rng *hlib.Rand, tf *testFile, invalid bool) []op {
 		switch {
 		case k < 45:
 			o = op{kind: "read", a: pickLen(rng, tf)}
-			pos += o.a
+			didRead(o.a)
 		case k < 75:
 			target := pickPos(rng, tf, pts)
 			switch rng.Intn(4) {
@@ -147,8 +155,9 @@ func genOps(rng *hlib.Rand, tf *testFile, invalid bool) []op {
 			}
 			if rng.Chance(1, 6) { // position query / no-op seek
 				o = op{kind: "seek", a: 0, b: 1}
+				target = pos
 			}
-			pos = target
+			pos, lim = target, tf.size
 		case k < 93:
 			lo := pickPos(rng, tf, pts)
 			if rng.Chance(1, 4) {
@@ -164,8 +173,11 @@ func genOps(rng *hlib.Rand, tf *testFile, invalid bool) []op {
 				hi = tf.size
 			}
 			o = op{kind: "seekrange", a: lo, b: hi}
-			pos = lo
-		case k < 96 && invalid:
+			pos, lim = lo, hi
+			if lim > tf.size {
+				lim = tf.size
+			}
+		case k < 96 && invalid && len(ops) >= n/2:
 			switch rng.Intn(8) {
 			case 0:
 				o = op{kind: "seek", a: int64(rng.Intn(10)), b: int64(3 + rng.Intn(3))}
@@ -189,7 +201,7 @@ func genOps(rng *hlib.Rand, tf *testFile, invalid bool) []op {
 			closed = true
 		default:
 			o = op{kind: "read", a: int64(1 + rng.Intn(100))}
-			pos += o.a
+			didRead(o.a)
 		}
 		if rng.Chance(1, 5) {
 			o.pauseU = rng.Intn(400)
@@ -522,14 +534,15 @@ func opSig(ops []op) string {
 func corpusCases(rng *hlib.Rand) []*testCase {
 	var out []*testCase
 	mk := func(nChunks, chunk int, ops []op) {
-		src := genData(rng, nChunks*chunk)
+		seed := rng.Uint64()
+		src := genData(seed, 0, nChunks*chunk)
 		buf := &bytes.Buffer{}
 		w := &rac.Writer{Writer: buf, CodecWriter: newZlibWriter(), DChunkSize: uint64(chunk)}
 		w.Write(src)
 		if err := w.Close(); err != nil {
 			return
 		}
-		tf := &testFile{family: "F1", enc: buf.Bytes(), desc: fmt.Sprintf("corpus chunks=%d dchunk=%d", nChunks, chunk)}
+		tf := &testFile{family: "F1", enc: buf.Bytes(), desc: fmt.Sprintf("corpus chunks=%d dchunk=%d", nChunks, chunk), seed: seed}
 		c := &testCase{tf: tf, ops: ops, levels: concLevels}
 		if e := tf.describe(); e != "" {
 			c.skipped = e
@@ -602,7 +615,7 @@ func main() {
 				c.tf = &testFile{desc: "ungenerated"}
 			}
 		} else {
-			c.ops = genOps(rng, tf, rng.Chance(1, 3))
+			c.ops = genOps(rng, tf, rng.Chance(1, 4))
 		}
 		cases = append(cases, c)
 	}
